@@ -86,6 +86,10 @@ MUTANTS = [
       (BAS, '        self.value.set_value(self.old);', '        if (self.get_value() - self.old).abs() > std::f64::EPSILON {\n            self.value.set_value(self.old);\n        }')),
     M('C06-reject-falls-back-to-loop-start', 'C06', 'R5/compared-score-never-falls-back-to-a-snapshot',
       (OPT, '                        loop_rejections += 1;\n                        score_current\n', '                        loop_rejections += 1;\n                        score_start\n')),
+    M('C06-direct-sampler-stale-undo', 'C06', 'R3/',
+      (BAS, '        self.set_value(self.sample(rng, step_size));', '        let current = self.get_value();\n        let proposed = current + step_size * self.value_range() * rng.gen_range(-0.5, 0.5);\n        self.old = proposed;\n        self.value.set_value(match proposed {\n            x if x < self.min => self.min,\n            x if x > self.max => self.max,\n            x => x,\n        });')),
+    M('C08-direct-sampler-no-clamp', 'C08', 'R2/clamp:set_sampled-writes-directly',
+      (BAS, '        self.set_value(self.sample(rng, step_size));', '        let current = self.get_value();\n        let proposed = current + step_size * self.value_range() * rng.gen_range(-0.5, 0.5);\n        self.old = current;\n        self.value.set_value(proposed);')),
     M('C06-undo-removed', 'C06', 'R2/', (OPT, '                            .expect("Trying to access basis which doesn\'t exist.")\n                            .reset_value();', '                            .expect("Trying to access basis which doesn\'t exist.");')),
     # C07
     M('C07-old-minus-new', 'C07', 'R3/', (OPT, 'f64::exp((new - old) / kt)', 'f64::exp((old - new) / kt)')),
@@ -252,6 +256,8 @@ BENIGN = [
                 }''')),
     B('undo-skipped-when-nothing-changed', ['C06', 'C05'],
       (BAS, '        self.value.set_value(self.old);', '        if self.get_value() != self.old {\n            self.value.set_value(self.old);\n        }')),
+    B('set-sampled-reads-the-cell-once', ['C05', 'C06', 'C07', 'C08', 'C19'],
+      (BAS, '        self.set_value(self.sample(rng, step_size));', '        let current = self.get_value();\n        let proposed = current + step_size * self.value_range() * rng.gen_range(-0.5, 0.5);\n        self.old = current;\n        self.value.set_value(match proposed {\n            x if x < self.min => self.min,\n            x if x > self.max => self.max,\n            x => x,\n        });')),
     B('index-instead-of-get', ['C06', 'C20'],
       (OPT, '''                basis
                     .get_mut(basis_index)
